@@ -12,7 +12,7 @@ CLAIMED = {
    note="Release-profile arithmetic. Step-fuel, depth and allocator budgets end runaway runs; such endings are C03 verdicts, not C01 ones. Worker aborts (SIGSEGV/SIGABRT) are attributed to the in-flight run and confirmed by solo replay.",
    tech="deterministic simulation: seeded workload + line-fault injection, per-byte crash oracle"),
  "C02": dict(cat="fault_enumeration", ref="DESIGN.md §3 C02",
-   text="Base files are produced by the engine's own writers (18 extensions, PSF/raw fonts incl. tables of up to 2^17 glyphs, TDF bundles, 5 palette formats plus the writer-less ASE reader, clipboard payloads, UTF-8 text files with a byte order mark, captured terminal sessions saved under twelve extensions) from seeded documents; a simulated disk applies 17 stored-byte fault kinds (short, torn sector, lost sector, stale tail, bit rot, overwrite, misdirected and duplicated sector, misnamed file incl. odd and non-UTF-8 names, SAUCE-tail-only, COMNT cut, header extreme, decimal number extreme, SAUCE numeric field extreme, SAUCE text bytes, TheDraw font name bytes, well-formed multi-byte character inserted) singly and in combinations of 2-3, plus real-file-system legs (missing, directory, empty, no extension). Every entry point named by the property is called on the damaged bytes; oracle: returns Ok/Err/None, no panic, worker alive; the loader's drain loop runs on virtual sleeps with decode threads gated. Two sweeps are complete by run index: every prefix (truncation) of 2 (quick) / 6 (thorough) base files for each of the 23 reader kinds, and the whole single-fault space (every truncation, every position x {bit 0, bit 7, 0x00, 0xFF, 0x1A}, every aligned 16-byte run zeroed) of 2 / 64 base files of up to 5 200 bytes. IcyDraw files are additionally damaged inside their framing (zTXt records rewritten and re-framed with correct base64/zlib/CRC). Multi-fault combinations are sampled.",
+   text="Base files are produced by the engine's own writers (18 extensions, PSF/raw fonts incl. tables of up to 2^17 glyphs, TDF bundles, 5 palette formats plus the writer-less ASE reader, clipboard payloads, UTF-8 text files with a byte order mark, captured terminal sessions saved under twelve extensions) from seeded documents; a simulated disk applies 18 stored-byte fault kinds (short, torn sector, lost sector, stale tail, bit rot, overwrite, misdirected and duplicated sector, misnamed file incl. odd and non-UTF-8 names, SAUCE-tail-only, COMNT cut, header extreme, decimal number extreme, SAUCE numeric field extreme, SAUCE text bytes, TheDraw font name bytes, well-formed multi-byte character inserted, far Tundra position record with or without a wide SAUCE record) singly and in combinations of 2-3, plus real-file-system legs (missing, directory, empty, no extension). Every entry point named by the property is called on the damaged bytes; oracle: returns Ok/Err/None, no panic, worker alive; the loader's drain loop runs on virtual sleeps with decode threads gated. Two sweeps are complete by run index: every prefix (truncation) of 2 (quick) / 6 (thorough) base files for each of the 23 reader kinds, and the whole single-fault space (every truncation, every position x {bit 0, bit 7, 0x00, 0xFF, 0x1A}, every aligned 16-byte run zeroed) of 2 / 64 base files of up to 5 200 bytes. IcyDraw files are additionally damaged inside their framing (zTXt records rewritten and re-framed with correct base64/zlib/CRC). Multi-fault combinations are sampled.",
    note="Nothing is asserted about what a damaged file loads as. Budget overruns are C03 verdicts. Complete only per enumerated base file; across base files and for multi-fault combinations it is sampling.",
    tech="deterministic simulation: storage fault injection on writer-produced files, crash oracle"),
  "C03": dict(cat="exploration", ref="DESIGN.md §3 C03",
@@ -20,7 +20,7 @@ CLAIMED = {
    note="Ticks are placed by hand; a loop touching no tick site is caught only by the allocator budget or the wall-clock watchdog (confirmed by solo replay, counted separately). Nothing is claimed about real running time.",
    tech="deterministic simulation: resource (CPU/memory/stack) fault budgets as oracle"),
  "C08": dict(cat="exploration", ref="DESIGN.md §3 C08",
-   text="Seeded edit histories over 63 public editing operations (plus current-layer/caret/selection steering) on 1-3 layer documents, with a second actor interleaving undo j / redo i<=j / undo-then-edit; the first 567 runs force every operation kind first, middle and last in histories of length 1-3. Reference model: observational snapshots (size, modes, palette, fonts, SAUCE, per-layer size/offset/properties/cells) recorded at every operation boundary; every undo/redo step that lands on a boundary must reproduce it, undo/redo must return Ok and not panic, an edit after undo must clear the redo history, an edit that adds no undo record must not change the document. 13 genuine defects are pinned as known findings (class = step kind + description of the operation being undone + differing field); a pinned class only covers histories containing one of the quarantined triggers, which the generator does not emit, so in this command it suppresses nothing.",
+   text="Seeded edit histories over 63 public editing operations (plus current-layer / caret / selection / mirror-mode steering, also right before an undo) on 1-3 layer documents, with a second actor interleaving undo j / redo i<=j / undo-then-edit; the first 567 runs force every operation kind first, middle and last in histories of length 1-3. Reference model: observational snapshots (size, modes, palette, fonts, SAUCE, per-layer size/offset/properties/cells) recorded at every operation boundary; every undo/redo step that lands on a boundary must reproduce it, undo/redo must return Ok and not panic, an edit after undo must clear the redo history, an edit that adds no undo record must not change the document. 13 genuine defects are pinned as known findings (class = step kind + description of the operation being undone + differing field); a pinned class only covers histories containing one of the quarantined triggers, which the generator does not emit, so in this command it suppresses nothing.",
    note="An operation that returns Err or panics ends the history (counted, not a violation). Regressions inside a quarantined operation (set_layer_size, clear_layer, scroll_area_*, center, stamp_layer_down, alpha-locked layers, SAUCE of another size) are not searched for.",
    tech="deterministic simulation: history search with undo/redo schedule against a snapshot reference model"),
  "C09": dict(cat="exploration", ref="DESIGN.md §3 C09",
